@@ -57,6 +57,8 @@ pub fn dump_logs(args: &[String], seed: u64) -> i32 {
         }
         if kp[gi] || census_g[gi].interesting() {
             cover_bases.push((e, kp[gi], if gi >= corpus.extra_from { 2 } else { kmax }));
+        } else if gi < corpus.extra_from && (tier == Tier::Thorough || crate::prng::hmix(&[seed, 0xC0F2, gi as u64]) % 16 == 0) {
+            cover_bases.push((e, false, 2));
         }
     }
     let cover_counts = CoverCounts::compute(&cover_bases);
